@@ -512,9 +512,10 @@ impl Parser<'_> {
                 kind: UnOpKind::Neg,
                 expr: expr.into(),
             }
+        } else if self.eat(&Token::Plus) {
+            // Unary `+` doesn't change its operand, which may start with another unary operator.
+            self.unop()
         } else {
-            // Eat unary `+` if exists.
-            self.eat(&Token::Plus);
             self.pow()
         }
     }
